@@ -32,7 +32,7 @@ ASSUMPTIONS = [
 REQUIRED_CLASSES = ["nontrivial", "int32_negative", "int32_min", "int32_max", "overlapping_write", "slot_28",
                     "byte_write_then_int32_read", "nickname_padded", "nickname_empty", "only_motor2",
                     "only_motor1", "both_motors", "motors_off_request", "prior_mode_differs", "clamped_request",
-                    "prior_state_set", "query_enabled"]
+                    "prior_state_set", "query_enabled", "nickname_case_change_only"]
 QUICK_SHARDS = 4
 
 INT32_MIN, INT32_MAX = -2 ** 31, 2 ** 31 - 1
@@ -132,6 +132,8 @@ class Sim:
                 self.classes.add("nickname_padded")
             if not trimmed:
                 self.classes.add("nickname_empty")
+            if trimmed and self.nick and trimmed != self.nick and trimmed.lower() == self.nick.lower():
+                self.classes.add("nickname_case_change_only")
             ret = self.call("write_nickname", text)
             self.nick = trimmed
             if ret is not True:
@@ -269,7 +271,24 @@ def operations(draw):
 @st.composite
 def histories(draw):
     n = draw(st.one_of(st.integers(1, 6), st.integers(1, 30)))
-    return {"ops": [draw(operations()) for _ in range(n)]}
+    ops = []
+    for _ in range(n):
+        op = draw(operations())
+        if op[0] == "nick":
+            earlier = [o[1] for o in ops if o[0] == "nick" and o[1].strip()]
+            if earlier and draw(st.integers(0, 2)) == 0:
+                # a new nickname that differs from an earlier one only in letter case / padding
+                base = draw(st.sampled_from(earlier))
+                op = ["nick", draw(st.sampled_from([base.upper(), base.lower(), base.swapcase(), " " + base.strip(),
+                                                    base.strip().title()]))]
+        elif op[0] == "w32":
+            earlier = [o for o in ops if o[0] == "w32"]
+            if earlier and draw(st.integers(0, 3)) == 0:
+                # the same value again at the same or an overlapping slot
+                prev = draw(st.sampled_from(earlier))
+                op = ["w32", prev[1], max(0, min(28, prev[2] + draw(st.sampled_from([0, 0, 1, -1, 3, -3, 4]))))]
+        ops.append(op)
+    return {"ops": ops}
 
 
 def motor_grid():
@@ -283,7 +302,15 @@ def int32_grid():
         yield {"ops": [["w32", v, slot] for v in EDGE32] + [["r32", s] for s in range(29)]}
 
 
+def nickname_grid():
+    names = ["AxiDraw", "AXIDRAW", "axidraw", "Axi Draw", " AxiDraw ", "", "East", "east"]
+    for a, b in itertools.product(names, repeat=2):
+        yield {"ops": [["nick", a], ["nick", b], ["qnick"], ["nick", a], ["qnick"]]}
+
+
 def run(ctx):
+    ctx.exhaustive("nickname_grid", nickname_grid(), body, "every ordered pair of 8 nicknames (case / padding variants) "
+                                                           "written in a row, read back, first written again")
     ctx.exhaustive("motor_grid", motor_grid(), body, "(r1, r2) in (-2..8)^2 x 20 prior board motor states")
     ctx.exhaustive("int32_grid", int32_grid(), body, "40 boundary int32 values x 29 slots, then every slot read back")
     ctx.given("histories", histories(), body, quick=1500, thorough=150000)
